@@ -691,7 +691,7 @@ def run(ctx):
                 if d <= 0 or r < 0.4:
                     toks += ["i", str(rng.randrange(100))]
                 elif r < 0.5:
-                    toks += ["[", "i", "1", "]"]
+                    toks += rng.choice([["[", "i", "1", "]"], ["[t", "i", "1", "i", "2", "]"], ["[t", "]"], ["[c", "i", "1", "]"], ["[", "[t", "]", "i", "3", "]"]])
                 elif r < 0.6 and d > 0:
                     toks += ["A[", *tbl(d - 1, "T{"), *tbl(d - 1, rng.choice(["T{", "T{"])), "]"]
                 else:
@@ -700,7 +700,7 @@ def run(ctx):
             return toks
         return tbl(d, "T{")
     flines = ["g " + " ".join(flagged(rng.choice([1, 2, 3]))) for _ in range(20000 if ctx.tier != "quick" else 1500)]
-    flines += ["g T{ 66 T{ 78 i 1 } 61 T{m 62 T{d 63 i 2 } } }", "g T{ 70 T{m 62 A[ T{ 6e i 1 6f T{m 66 T{d 6c i 1 } } } ] } }"]
+    flines += ["g T{ 61 [t ] }", "g T{ 61 [c i 1 ] 62 [t i 1 ] }", "g T{ 66 T{ 78 i 1 } 61 T{m 62 T{d 63 i 2 } } }", "g T{ 70 T{m 62 A[ T{ 6e i 1 6f T{m 66 T{d 6c i 1 } } } ] } }"]
     rc, fout, _ = run_lines(tvh, "c06", flines)
     fout += ["CRASH"] * (len(flines) - len(fout))
     nflag = 0
